@@ -186,7 +186,7 @@ Ltac rw_apply := idtac; match goal with G : good (apply_fn m1 ev1 _ _ _) |- _ =>
 Lemma ev_map_sim : forall rows st c, good (ev_map m1 ev1 st c rows) -> ev_map m2 ev2 st c rows = ev_map m1 ev1 st c rows.
 Proof.
   induction rows as [|row rows IH]; intros st c H; simpl in *; [reflexivity|].
-  step rw_apply. step noop.
+  step rw_apply.
   step ltac:(idtac; match goal with G : good (ev_map _ _ _ _ _) |- _ => rewrite (IH _ _ G); clear G end).
   reflexivity.
 Qed.
